@@ -191,6 +191,7 @@ def render_program(program, cfg):
 
 
 def without_item(program, pid):
+    pid = pid - gen.TWIN if pid >= gen.TWIN else pid
     return {"label": program["label"],
             "tus": [dict(t, items=[it for it in t["items"] if it.get("id") != pid]) for t in program["tus"]]}
 
@@ -234,6 +235,9 @@ def build_and_run(tc, program, schedule, depth=0):
     if e:
         return {"failures": [], "infra": e, "observed": 0}
     items = {it["id"]: it for tu in program["tus"] if tu["role"] == "user" for it in tu["items"] if "id" in it}
+    for it in list(items.values()):
+        if it.get("form") == "wrapped" and it.get("twin"):
+            items[it["id"] + gen.TWIN] = dict(it, id=it["id"] + gen.TWIN, form="wrapped", twin_of=it["id"], note=it.get("note", "") + " [from %s]" % ("inline variable" if it["twin"] == "inline" else "static inline data member"))
     ref = tc.execute(exe, "all")
     if not ref["done"]:
         lit = ref["in_flight"]
@@ -444,6 +448,8 @@ def minimise(tc, program, failure, budget=40):
         used[0] += 1
         return reproduces(tc, p, s, failure)
     pid = failure["probe"]
+    if pid is not None and pid >= gen.TWIN:
+        pid -= gen.TWIN
     home = None
     for tu in program["tus"]:
         if any(it.get("id") == pid for it in tu["items"]):
